@@ -442,12 +442,20 @@ def callNativeBody (reenter : Reenter) (name : String) : M Val := do
       | _ => throwE .invalidArgument
     | _ => throwE .invalidArgument
   | "three" => do
+    -- allocates before it looks at its arguments (a collection may run while they are only
+    -- referenced from the argument slots)
+    let scratch ← initString "scratch".toUTF8.toList
+    dropGuard scratch
+    let h := (← get).heap
     let c ← peek 0
     let b ← peek 1
     let a ← peek 2
     modify fun s => { s with hostLog := s.hostLog ++ ["three " ++ (ownD h a).toTok ++ " " ++ (ownD h b).toTok ++ " " ++ (ownD h c).toTok] }
     return a
   | "four" => do
+    let scratch ← initString "scratch".toUTF8.toList
+    dropGuard scratch
+    let h := (← get).heap
     let d ← peek 0
     let c ← peek 1
     let b ← peek 2
@@ -826,6 +834,8 @@ def step (p : Prog) (reenter : Reenter) (src : Nat) : M Ctl := do
     let s ← get
     if s.stack.count == 0 then throwE .invalidArgument
     closeUpvalues (s.stack.count - 1)
+    -- (repaired) the instruction stands in for the `Pop` of a captured local: the slot goes
+    let _ ← pop
     return { ip }
   else
     throwE (.panic "invalid opcode")
